@@ -130,8 +130,9 @@ def run(ctx):
     ctx.cov["evaluations"] = total_lines
     ctx.cov["distinct_nontrivial"] = len(distinct)
     ctx.cov["traces_validated_against_impl"] = total_lines - total_bad
-    ctx.cov["rule"] = ("(1) request lines METHOD SP target SP HTTP/1.1 written byte-for-byte over TCP to the real http.Engine (3 engines: two listeners+token auth, "
-                       "one shared listener+token auth, two listeners without auth; 19 canary routes incl. static, :param, leaf/non-leaf params, *, exact /internal, "
+    ctx.cov["rule"] = ("(1) request lines METHOD SP target SP HTTP/1.1 written byte-for-byte over TCP to the real http.Engine (4 engines: two listeners+token auth, "
+                       "one shared listener+token auth, two listeners without auth, two listeners+token auth with a seed-dependent RANDOM table of 14 routes "
+                       "(static/:param/* segments, depth 2-4) and request paths instantiating them; 19 fixed canary routes incl. static, :param, leaf/non-leaf params, *, exact /internal, "
                        "mixed-case first segments, CONNECT); targets from a grammar: origin-form, absolute-form (9 schemes x 14 authorities incl. invalid ones), "
                        "scheme-rooted, opaque, authority-form (CONNECT), '*', relative, leading '//' and ':'; 33 base paths mutated by percent-encoding (both hex cases), "
                        "encoded '/', '.', NUL, '%', '?', '#', duplicate slashes, dot segments, case flips, malformed escapes, control bytes/space, non-ASCII bytes, "
@@ -150,7 +151,7 @@ def http_part(ctx, out):
     impl, model, bad = ctx.compare(impl_p, model_p)
     ops = ctx.read_lines(ops_p)
     cfg = json.loads(ops[0]) if ops and ops[0] else {}
-    routes = {r["id"]: r for r in cfg.get("routes", [])}
+    routes = {r["id"]: r for rs in cfg.get("routesets", {}).values() for r in rs}   # ids are unique across route sets
     internal_ids = {i for i, r in routes.items() if first_seg(r["p"]) == "internal"}
     bound_internal_ids = {i for i, r in routes.items() if first_seg(r["p"]).lower() in INTERNAL_BINDS}
     engines = cfg.get("engines", {})
